@@ -137,7 +137,26 @@ func LabelID(id int64) string {
 //
 //	http://www.llvm.org/docs/LangRef.html#identifiers
 func TypeName(name string) string {
+	// Numeric type names are type IDs and are kept unquoted; e.g.
+	//
+	//    %2
+	if isAllDecimal(name) {
+		return "%" + name
+	}
 	return "%" + EscapeIdent(name)
+}
+
+// isAllDecimal reports whether s is a non-empty string of decimal digits.
+func isAllDecimal(s string) bool {
+	if len(s) == 0 {
+		return false
+	}
+	for i := 0; i < len(s); i++ {
+		if s[i] < '0' || '9' < s[i] {
+			return false
+		}
+	}
+	return true
 }
 
 // AttrGroupID encodes a attribute group ID to its LLVM IR assembly
@@ -230,7 +249,11 @@ const (
 // EscapeIdent replaces any characters which are not valid in identifiers with
 // corresponding hexadecimal escape sequence (\XX).
 func EscapeIdent(s string) string {
-	replace := false
+	// An identifier starting with a digit has to be quoted, otherwise the leading
+	// digits are lexed as an unnamed ID; e.g.
+	//
+	//    "1abc" -> `"1abc"`
+	replace := len(s) > 0 && '0' <= s[0] && s[0] <= '9'
 	extra := 0
 	for i := 0; i < len(s); i++ {
 		if strings.IndexByte(tail, s[i]) == -1 {
